@@ -115,7 +115,10 @@ CLAIMS = {
          "(functions in order, signatures, bodies, mono_enums/mono_structs/mono_funcs), panic exactly where the real pass panics and run out "
          "of fuel exactly where the real pass does not return (child process with watchdog). Independent oracles on the real outputs: real "
          "Core vs real Mono under Sem, closedness (no TParam/TApp/TVar/ETraitCall) of the real Mono/Lift/ANF dumps, pairwise distinct "
-         "function names, no reference to an unspecialised generic function, no panic, termination watchdog.",
+         "function names, no reference to an unspecialised generic function, no panic, termination watchdog; type instances: every "
+         "construction, arm pattern and field read of a data type in the real Mono program carries the field types of the one definition "
+         "monoenv holds under that name (distinct instantiations never share a name or a body), on all streams incl. a catalogue of "
+         "instantiation pairs that differ at exactly one position of the argument's type tree (5 containers x 17 positions).",
     design_ref="§5 C07, §C07 — as built",
     note="Proved: the theorems above about the Lean model. _partial: no_residue assumes the instance substitution covers the function (false "
          "for a type parameter that occurs only in a body - known finding); mono_preserves is proved for the closure-free fragment with "
